@@ -63,12 +63,12 @@ From Coq Require Import List String.
 Import ListNotations.
 Lemma leaf_reads_imports :
   L_image_IMAGE_IMPORT_DESCRIPTOR_is_null_args = ["self.FirstThunk : u32"%string] /\
-  L_pe32_imports_import_from_va__by_name_args = ["va : u32"%string] /\
-  L_pe32_imports_import_from_va__rva_args = ["va : u32"%string] /\
-  L_pe32_imports_import_from_va__name_rva_args = ["va : u32"%string] /\
-  L_pe32_imports_import_from_va__ordinal_args = ["va : u32"%string] /\
-  L_pe64_imports_import_from_va__by_name_args = ["va : u64"%string] /\
-  L_pe64_imports_import_from_va__rva_args = ["va : u64"%string] /\
-  L_pe64_imports_import_from_va__name_rva_args = ["va : u64"%string] /\
-  L_pe64_imports_import_from_va__ordinal_args = ["va : u64"%string].
+  L_pe32_imports_import_from_va__by_name_args = ["arg2 : u32"%string] /\
+  L_pe32_imports_import_from_va__rva_args = ["arg2 : u32"%string] /\
+  L_pe32_imports_import_from_va__name_rva_args = ["arg2 : u32"%string] /\
+  L_pe32_imports_import_from_va__ordinal_args = ["arg2 : u32"%string] /\
+  L_pe64_imports_import_from_va__by_name_args = ["arg2 : u64"%string] /\
+  L_pe64_imports_import_from_va__rva_args = ["arg2 : u64"%string] /\
+  L_pe64_imports_import_from_va__name_rva_args = ["arg2 : u64"%string] /\
+  L_pe64_imports_import_from_va__ordinal_args = ["arg2 : u64"%string].
 Proof. repeat split; reflexivity. Qed.
